@@ -243,7 +243,7 @@ class Env:
                 b0 = self._buf0.get(key, 0)
                 sent = self._sent_this_step.get(key, -1)
                 lows = self._lows.get(key, 0)
-                if b0 != 0 or b1 != 0 or sent >= 0 or lows:
+                if b0 != b1 or sent >= 0 or lows:
                     self.ev(k="buf", e=side, c=tok, b0=b0, b1=b1, sent=sent, lows=lows,
                             thr=ch.bufferedAmountLowThreshold, q=self._queued_bytes(side, ch))
         while self.loop.task_exceptions:
